@@ -85,7 +85,7 @@ PROPS = {
         assumptions=['well-posed layouts', 'capacity >= 1 or None, minimum_delay >= 0']),
     'C13': dict(
         vfile='Props/C13.v', ties=['Tie/TieEnv.v', 'Tie/TieFloor.v', 'Tie/TieMaint.v'],
-        families=[('floor', 400, 12000, 'small', 'large')],
+        families=[('floor', 400, 12000, 'small', 'large'), ('sys', 300, 6000, 'small', 'large')],
         rule='F_floor scenarios: layered production lines (sources incl. cycle 0 and finite budgets, handlers, processors with resources/callbacks/work orders, buffers with delay and capacity, batchers, decision gates, flow controllers, shared groups reached through several paths incl. nested and re-entrant use, sinks), scripted failures/shutdowns/restores/blocking/capacity changes/budget adjustments/one-shot offsets/mid-run rewiring, many single steps then runs, generated from VERIF_SEED (corpus/floor first); '
              'non-trivial = a failure or a pause happened and at least 2 parts were produced; distinct by scenario text',
         explanation='Processor state-machine theorems (shut down: accepts nothing, releases nothing; failure: loses exactly the input part; repeated shutdown/restore are no-ops), '
